@@ -110,6 +110,21 @@ pub fn check_program(ctx: &mut Ctx, start: &Pos, ops: &[Op]) -> Result<(), Viola
     let mut after_result = 0;
     let (mut illegal_attempt, mut accept_attempt) = (false, false);
     for (i, op) in ops.iter().enumerate() {
+        // now and then the game is replaced by a copy of itself: Clone::clone, or Clone::clone_from
+        // into a game that was created differently (a copy is the same game)
+        match fp(&(start, i, "copy")) % 12 {
+            0 => {
+                g = g.clone();
+                ctx.class("op:clone");
+            }
+            1 => {
+                let mut other = if i % 2 == 0 { Game::new() } else { Game::new_with_board(replayed) };
+                other.clone_from(&g);
+                g = other;
+                ctx.class("op:clone_from");
+            }
+            _ => {}
+        }
         let open = m.result().is_none();
         if !open {
             after_result += 1;
